@@ -3,7 +3,7 @@ CONSTANTS
   MaxLen = 3
   MaxVariants = 3
   EmitCases = TRUE
-  Alphabet = {"F", "f", "O", "o", "n", "B", "a"}
+  Alphabet = {"F", "f", "O", "o", "n", "B", "a", "U+C4", "U+E4"}
 INVARIANTS
   P_C13_Exact
   P_C13_OwnName
